@@ -127,6 +127,8 @@ def run(repo: Repo, rep: Report, tier: str) -> None:
         "ProjectionExpr.target_type": "Signal x = 5; Signal y = (x * 2) | \"signal-A\"; Signal z = 7; Bundle r = {y, z};  -> an untyped value would share signal-A with y",
         "MemDecl.signal_type": "Memory m: \"signal-A\"; Signal b = 7; m.write(b + 1, when=b > 0); Signal r = m.read() + b;  -> the untyped b is allocated the cell's signal-A",
     }
+    helper_registers_builtins = any(f.short.endswith("ensure_signal_registered") and k == "signal-name" and not b for f, c, t, k, b in contributions)
+    rep.analysed["C13-R2:registration helper records built-in names"] = helper_registers_builtins
     for slot, handlers in SLOTS.items():
         hs = [repo.func(h) for h in handlers]
         direct = []
@@ -135,6 +137,21 @@ def run(repo: Repo, rep: Report, tier: str) -> None:
                 if isinstance(n, ast.Subscript) and isinstance(n.ctx, ast.Store) and norm(n.value).endswith("signal_type_map"):
                     direct.append((h, n))
         unblocked = [x for x in contributions if x[0].qual in {h.qual for h in hs} and x[3] == "signal-name" and not x[4]]
+        # through the registration helper: the handler passes the slot's name to ensure_signal_registered, and that helper registers its parameter
+        # on a path that built-in names take (a register call that is not behind the negative `in signal_data.raw` guard)
+        if not direct and not unblocked and helper_registers_builtins:
+            for h in hs:
+                duh = DefUse(h)
+                for c in calls_in(h.node):
+                    if call_name(c) != "ensure_signal_registered" or not c.args:
+                        continue
+                    attrs = set()
+                    for e in [c.args[0]] + duh.expand(c.args[0]):
+                        for n in ast.walk(e):
+                            if isinstance(n, ast.Attribute):
+                                attrs.add(n.attr)
+                    if attrs & {"signal_type", "target_type"}:
+                        unblocked.append((h, c, "signal_type_map", "signal-name", False))
         ok = bool(direct) or bool(unblocked)
         rep.check(ok, "C13-R2", f"explicit signal names written in {slot} reach the allocation exclusion set",
                   (f"{direct[0][0].short}: {norm(direct[0][1])[:70]}" if direct else f"{unblocked[0][0].short}: {norm(unblocked[0][1])[:70]}") if ok else
